@@ -106,7 +106,8 @@ func (h *halfPipe) parkedEmpty() bool {
 type memConn struct {
 	in, out    *halfPipe
 	fromClient bool
-	log        *wireLog
+	log        *wireLog // what was forwarded to the peer
+	orig       *wireLog // what the endpoint wrote (before any mutation); nil = same as log
 	mut        mutator
 	pend       []byte // bytes written but not yet forming a complete record (only with a mutator)
 	recIdx     int
@@ -140,6 +141,9 @@ func (c *memConn) Write(p []byte) (int, error) {
 		}
 		rec := append([]byte{}, c.pend[:5+n]...)
 		c.pend = c.pend[5+n:]
+		if c.orig != nil {
+			c.orig.add(c.fromClient, rec)
+		}
 		outs, closeAfter := c.mut(c.fromClient, c.recIdx, rec)
 		c.recIdx++
 		if outs == nil {
@@ -174,8 +178,12 @@ func (c *memConn) SetWriteDeadline(t time.Time) error { return nil }
 // newMemPair returns (client end, server end).
 func newMemPair(log *wireLog, mut mutator) (*memConn, *memConn) {
 	c2s, s2c := newHalfPipe(), newHalfPipe()
-	cl := &memConn{in: s2c, out: c2s, fromClient: true, log: log, mut: mut, name: "client"}
-	sv := &memConn{in: c2s, out: s2c, fromClient: false, log: log, mut: mut, name: "server"}
+	var orig *wireLog
+	if mut != nil {
+		orig = &wireLog{}
+	}
+	cl := &memConn{in: s2c, out: c2s, fromClient: true, log: log, orig: orig, mut: mut, name: "client"}
+	sv := &memConn{in: c2s, out: s2c, fromClient: false, log: log, orig: orig, mut: mut, name: "server"}
 	return cl, sv
 }
 
@@ -333,6 +341,7 @@ func collectEKM(c *gmtls.Conn) map[string]string {
 type pairOutcome struct {
 	cli, srv     endResult
 	log          *wireLog
+	orig         *wireLog // endpoint output before mutation (== log without a mutator)
 	stuck        string
 	oneSided     bool // one side completed while the other was still waiting for handshake input
 	cconn, sconn *memConn
@@ -343,7 +352,10 @@ func handshakePair(ccfg, scfg *gmtls.Config, mut mutator) *pairOutcome {
 	cm, sm := newMemPair(log, mut)
 	cc := gmtls.Client(cm, ccfg)
 	sc := gmtls.Server(sm, scfg)
-	out := &pairOutcome{log: log, cconn: cm, sconn: sm}
+	out := &pairOutcome{log: log, cconn: cm, sconn: sm, orig: cm.orig}
+	if out.orig == nil {
+		out.orig = log
+	}
 	out.cli.conn, out.srv.conn = cc, sc
 	var wg sync.WaitGroup
 	var cliFin, srvFin int32
